@@ -71,6 +71,12 @@ def configs(tier):
     return out
 
 
+def THRESH(h):
+    """exact runs switch the (scale dependent) absolute threshold off; float replays keep the default, which only ever
+    cuts off residuals at rounding-noise level for the order-one inputs used here (with 0 a float sift need not terminate)"""
+    return 0 if h.symbolic else 1e-8
+
+
 def factor(h, tr):
     """scale factor of a transform label 'x<...>' (None for reversal)"""
     if tr == 'rev':
@@ -113,8 +119,8 @@ def harness(h):
             if fn == 'gni':
                 return ('ok',) + tuple(S.get_next_imf(Z, **kw, **imf_opts))
             if fn == 'sift':
-                return ('ok', S.sift(Z, sift_thresh=0, imf_opts=imf_opts, **kw))
-            return ('ok', S.mask_sift(Z, mask_amp=0.5, mask_amp_mode=p['mode'], mask_freqs=p['freqs'], max_imfs=2, sift_thresh=0,
+                return ('ok', S.sift(Z, sift_thresh=THRESH(h), imf_opts=imf_opts, **kw))
+            return ('ok', S.mask_sift(Z, mask_amp=0.5, mask_amp_mode=p['mode'], mask_freqs=p['freqs'], max_imfs=2, sift_thresh=THRESH(h),
                                       nphases=p.get('nphases', 1), imf_opts=imf_opts, **kw))
         except EMDSiftCovergeError:
             return ('convergence-error',)
